@@ -22,6 +22,9 @@
    object (as the pipeline starts one plugin per processor) and run concurrently for a bounded time on their own
    documents; every result is compared; the overlap achieved is reported.  The spec mutant ~M_BuffersPerInstance
    ("instances share the backing arrays") must be rejected by TLC, the faithful two-instance model must pass.
+   NAME LENGTH: every ordinary case runs once more with its names replaced by a name table of the lengths 1 ... 1000
+   (specification lemma RenameInvariant); the spec mutant ~M_NamesComparedWhole ("a name of NameW or more characters
+   is never found") must be rejected by TLC.
 3. A difference is a violation record {plugin, kind, as_swap_delete_model, event, ...}; records matching a
    known finding are KNOWN-FINDING, everything else is a VIOLATION.
 """
@@ -86,11 +89,17 @@ def run(ctx):
         if mi.ok or mi.violated != "InstInv":
             raise vlib.Infra("spec mutant ~M_BuffersPerInstance was not rejected by TLC (%s)\n%s" %
                              (mi.violated, mi.out[-1500:]))
+        mn = ctx.tlc("FieldSelect", "FieldSelect_mutant_names.cfg", timeout=600, deadlock=False,
+                     name="mutant long names never found (must be rejected)")
+        if mn.ok or mn.violated != "MutantInv":
+            raise vlib.Infra("spec mutant ~M_NamesComparedWhole was not rejected by TLC (%s)\n%s" %
+                             (mn.violated, mn.out[-1500:]))
         cex = re.search(r"State 2:.*?\n(.*?)\n\s*\n", mut.out, re.S)
         ctx.extra["spec_mutants_rejected"] = ["M_DepthBuffersDisjoint=FALSE: " +
                                               (" ".join(cex.group(1).split())[:700] if cex else "?"),
                                               "M_AllDocumentKindsFiltered=FALSE: MutantKindInv violated",
-                                              "M_BuffersPerInstance=FALSE: InstInv violated"]
+                                              "M_BuffersPerInstance=FALSE: InstInv violated",
+                                              "M_NamesComparedWhole=FALSE: MutantInv violated"]
         total = len(cases)
         ctx.extra["documents"] = docs
         ctx.rng.shuffle(cases)          # the whole exported scope is replayed in both tiers; the seed orders it
@@ -166,7 +175,7 @@ def run(ctx):
     ctx.rule = ("case = (JSON object with unique keys over the names a, b, 'a.b', 'a.b.a', 'b.a', <= 5 members, depth <= 3, leaf kinds 1 / \"s\" / "
                 "null / [] / [{\"a\":1}] / {}; list of 1-3 selectors of length <= 3 over the same names, written with "
                 "escaped dots, short-first / long-first / with a repeat), enumerated exhaustively by TLC per family (%s "
-                "cases); every case is run on the real keep_fields and remove_fields (Start + Do as regular event twice, as child event, as child-parent event) and the encoded "
+                "cases); every case is run on the real keep_fields and remove_fields (Start + Do as regular event twice, as child event, as child-parent event, and once with names of one of the lengths 1..1000) and the encoded "
                 "event compared token by token with the declarative expectation; cases with the marker member are widened "
                 "to 1/99/100/101/150/250 junk members per marker and run through one instance in ascending and one in "
                 "descending width (12 events). Non-trivial = (case, plugin) pairs whose "
